@@ -343,6 +343,11 @@ fn scenarios(thorough: bool) -> Vec<Scn> {
     v.push(Scn { name: "connection ends mid-transfer: transport failure", local_out: 6, peer: vec![p(b"\xb1\xb2"), PeerEv::Cut], peer_rwnd: 2, lazy_ack: true, stuck: "", chunk: 0, buffered: false, write_zero: false });
     v.push(Scn { name: "connection ends mid-transfer: invalid frame", local_out: 6, peer: vec![p(b"\xb1\xb2"), PeerEv::Garbage], peer_rwnd: 2, lazy_ack: true, stuck: "", chunk: 0, buffered: false, write_zero: false });
     v.push(Scn { name: "fast local producer, 150 000 B ready at once, window 1", local_out: 150_000, peer: vec![PeerEv::Finish], peer_rwnd: 1, lazy_ack: true, stuck: "", chunk: 50_000, buffered: false, write_zero: false });
+    // more ready at once than one frame may carry (512 KiB): the bridge fills a frame to the limit while the local side
+    // still has data ready, so no waker of the local side is registered; it must go on by itself (chunks that overshoot
+    // the limit, and chunks that add up to it exactly)
+    v.push(Scn { name: "fast local producer, 1 400 000 B ready at once (chunks of 200 000), window 8", local_out: 1_400_000, peer: vec![PeerEv::Finish], peer_rwnd: 8, lazy_ack: false, stuck: "", chunk: 200_000, buffered: false, write_zero: false });
+    v.push(Scn { name: "fast local producer, 1 100 000 B ready at once (chunks of 65 536), window 2", local_out: 1_100_000, peer: vec![p(b"\xb1"), PeerEv::Finish], peer_rwnd: 2, lazy_ack: false, stuck: "", chunk: 65_536, buffered: false, write_zero: false });
     if thorough {
         v.push(Scn { name: "peer finishes first, long local tail", local_out: 9, peer: vec![PeerEv::Finish], peer_rwnd: 2, lazy_ack: true, stuck: "", chunk: 0, buffered: false, write_zero: false });
         v.push(Scn { name: "window overrun by bridge impossible: 3 pushes then finish", local_out: 2, peer: vec![p(b"\xb1"), p(b"\xb2"), p(b"\xb3"), PeerEv::Finish], peer_rwnd: 3, lazy_ack: true, stuck: "", chunk: 0, buffered: false, write_zero: false });
@@ -779,7 +784,7 @@ pub fn run(args: &Args) -> Report {
     let thorough = args.thorough();
     let mut cases = Vec::new();
     for sc in scenarios(thorough) {
-        cases.push(Case { try_unbounded: false, max_k: if sc.chunk > 1000 { 1 } else { u32::MAX }, label: format!("{} | local produces {} B, peer script {:?}, peer window {}, lazy_ack={}{}", sc.name, sc.local_out, sc.peer, sc.peer_rwnd, sc.lazy_ack, if sc.stuck.is_empty() { String::new() } else { format!(", local {} never ready", sc.stuck) }), exec: Box::new(move |r| exec(&sc, r)) });
+        cases.push(Case { try_unbounded: false, max_k: if sc.local_out > 500_000 && !thorough { 0 } else if sc.chunk > 1000 { 1 } else { u32::MAX }, label: format!("{} | local produces {} B, peer script {:?}, peer window {}, lazy_ack={}{}", sc.name, sc.local_out, sc.peer, sc.peer_rwnd, sc.lazy_ack, if sc.stuck.is_empty() { String::new() } else { format!(", local {} never ready", sc.stuck) }), exec: Box::new(move |r| exec(&sc, r)) });
     }
     let plan = Plan {
         ks: if thorough { vec![0, 1, 2, 3, 4, 5] } else { vec![0, 1, 2] },
